@@ -42,6 +42,9 @@ ASSUMPTIONS = [
 FLOORS = {"quick": {"judged": 1000000, "schemaless_judged": 1000000},
           "thorough": {"judged": 15000000, "schemaless_judged": 15000000}}
 
+HOOK_FLOORS = {"quick": {"case_preserving_subclass_parsed_first": 10000},
+               "thorough": {"case_preserving_subclass_parsed_first": 100000}}
+
 ALPHABET = "<>/%#()$aB1- \t é"
 BOUND = {"quick": 5, "thorough": 6}
 PREFIXES = ["%define ", "%import ", "%include ", "<a ", "</", "k ", "%"]
